@@ -602,4 +602,64 @@ theorem sum_odd (n : ℕ) : ((List.range n).map fun j => (((2 * j + 1 : ℕ)) : 
     rw [List.range_succ, List.map_append, List.sum_append, ih]
     simp; ring
 
+/-! ### supersampling: one width per point, the generator the driver runs -/
+
+theorem deltasInner_length : ∀ (l : List K), 2 ≤ l.length → (deltasInner l).length + 1 = l.length
+  | [a, b], _ => by simp [deltasInner]
+  | a :: b :: c :: rest, _ => by
+      have := deltasInner_length (b :: c :: rest) (by simp)
+      simp only [deltasInner, List.length_cons] at this ⊢; omega
+  | [], h => by simp at h
+  | [_], h => by simp at h
+
+/-- `evaluate_supersampled` computes one cell width per grid point -/
+theorem deltas_length (ax : List K) (h : 2 ≤ ax.length) : (deltas ax).length = ax.length := by
+  match ax, h with
+  | a :: b :: rest, _ =>
+    have := deltasInner_length (a :: b :: rest) (by simp)
+    simp only [deltas, List.length_cons] at this ⊢; omega
+
+theorem tensorPts_map {α β : Type} (φ : α → β) : ∀ (axes : List (List α)),
+    tensorPts (axes.map (List.map φ)) = (tensorPts axes).map (List.map φ)
+  | [] => rfl
+  | ax :: rest => by
+    simp only [List.map_cons, tensorPts, tensorPts_map φ rest, List.flatMap_map, List.map_flatMap,
+      List.map_map]
+    rfl
+
+theorem gridPts_map {α β : Type} (φ : α → β) (sep : List (List α)) :
+    gridPts (sep.map (List.map φ)) = (gridPts sep).map (List.map φ) := by
+  unfold gridPts
+  rw [← List.map_reverse, tensorPts_map, List.map_map, List.map_map]
+  apply List.map_congr_left
+  intro q _
+  simp [List.map_reverse]
+
+/-- the points of the zipped (coordinate, width) grid are the points of the grid itself -/
+theorem gridPts_zip_deltas (sep : List (List K)) (h : ∀ ax ∈ sep, 2 ≤ ax.length) :
+    (gridPts (sep.map fun ax => List.zip ax (deltas ax))).map (List.map Prod.fst) = gridPts sep := by
+  rw [← gridPts_map, List.map_map]
+  congr 1
+  conv_rhs => rw [← List.map_id sep]
+  apply List.map_congr_left
+  intro ax hax
+  simp only [Function.comp, id]
+  exact List.map_fst_zip (le_of_eq (deltas_length ax (h ax hax)).symm)
+
+theorem dot_zero_left (n : Nat) (y : List K) : dot (List.replicate n (0 : K)) y = 0 := by
+  induction n generalizing y with
+  | zero => simp [dot]
+  | succ n ih =>
+    cases y with
+    | nil => simp [dot]
+    | cons t y =>
+      have := ih y
+      simp only [dot] at this
+      simp [dot, List.replicate_succ, this]
+
+/-- the generator the driver runs (`poly`) with all quadratic coefficients zero is `affine` -/
+theorem poly_zero (c0 : K) (c : List K) (n : Nat) : poly c0 c (List.replicate n 0) = affine c0 c := by
+  funext x
+  simp [poly, affine, dot_zero_left]
+
 end HcipyVerif.Interp
